@@ -442,8 +442,8 @@ def gen_reentrant(rng, big, P):
     def fac_for(method, a, b):
         return rand_fac(rng, a, b, positive=(method == "Adaptive-Simpson"), affine=(method == "Trapezoidal" and rng.random() < 0.5))
 
-    # 1-D: all 36 pairs (outer, inner)
-    for rep in range(3 if big else 1):
+    # 1-D: every pair (outer, inner) that inner_ok admits
+    for rep in range(2 if big else 1):
         for method in METHODS:
             for im in METHODS:
                 if not inner_ok(method, im): continue
@@ -471,48 +471,46 @@ def gen_reentrant(rng, big, P):
         cs.append(Case(f"named1d Gauss-Kronrod {p} {hx(a)} {hx(b)} {product_text([f], 'x', re)} # 1d@ {re_ann(re)} {f.ann()}", ("named1d", "reentrant", "Gauss-Kronrod", "inner-Gauss-Kronrod", "points-differ")))
     # 2-D / 3-D: one factor (any position) written through an integral
     pick3 = rng.choice(["Gauss-Legendre", "Gauss-Kronrod"])          # quick tier: one of the two 30^3-evaluation rules per run in 3-D
-    for rep in range(4 if big else 1):
-        for method in METHODS:
-            for dd in (2, 3):
-                if dd == 3 and (method == "Tanh-Sinh" or (not big and (method == "Trapezoidal" or (method in ("Gauss-Legendre", "Gauss-Kronrod") and method != pick3)))): continue
-                for _ in range(2 if dd == 2 else 1):
-                    lims = [limits(rng, k, rng.random() < 0.6) for k in range(dd)]
-                    if method == "Trapezoidal": facs = [rand_fac(rng, *lims[k], affine=True) for k in range(dd)]
-                    elif method == "Adaptive-Simpson" and dd == 3: facs = [rand_fac(rng, *lims[k], poly=True) for k in range(dd)]
-                    else: facs = [fac_for(method, *lims[k]) for k in range(dd)]
-                    k = rng.randrange(dd); x0 = anchor(*lims[k], method, "Tanh-Sinh")
-                    im, ip = pick_inner(rng, facs[k], x0, *lims[k], outer_method=method, cheap=True)
-                    if method == "Gauss-Legendre_2" and rng.random() < 0.7: im, ip = "Gauss-Legendre_2", rng.choice([20, 24, 31, 40] if dd == 2 else [20, 24])
-                    if dd == 3 and im == "Gauss-Legendre_2" and method not in ("Gauss-Legendre_2", "Adaptive-Simpson"): im, ip = "Gauss-Kronrod", rng.choice([0, 8])
-                    if im != "Tanh-Sinh" and method != "Tanh-Sinh" and rng.random() < 0.4:
-                        lo_, hi_ = min(lims[k]), max(lims[k])
-                        x1 = rng.choice([lo_, hi_] + ([0.5 * (lo_ + hi_)] if method != "Trapezoidal" else []))
-                        if im != "Adaptive-Simpson" or facs[k].dl1(min(x1, lo_), max(x1, hi_), want_sign=True)[1]: x0 = x1
-                    p = P(method, rng.random() < 0.5)
-                    if method == "Gauss-Legendre_2" and dd == 3 and (p > 31 or not big): p = rng.choice([20, 24])
-                    re = (k, x0, im, ip)
-                    flat = " ".join(hx(x) for lm in lims for x in lm)
-                    cs.append(Case(f"nested{dd}d {method} {p} {flat} {product_text(facs, 'xyz'[:dd], re)} # nd@ {re_ann(re)} " + " ".join(f.ann() for f in facs),
-                                   (f"nested{dd}d", "reentrant", method, "inner-" + im)))
+    for method in METHODS:
+        for dd in (2, 3):
+            if dd == 3 and (method == "Tanh-Sinh" or (not big and (method == "Trapezoidal" or (method in ("Gauss-Legendre", "Gauss-Kronrod") and method != pick3)))): continue
+            for _ in range(2 if dd == 2 else 1):
+                lims = [limits(rng, k, rng.random() < 0.6) for k in range(dd)]
+                if method == "Trapezoidal": facs = [rand_fac(rng, *lims[k], affine=True) for k in range(dd)]
+                elif method == "Adaptive-Simpson" and dd == 3: facs = [rand_fac(rng, *lims[k], poly=True) for k in range(dd)]
+                else: facs = [fac_for(method, *lims[k]) for k in range(dd)]
+                k = rng.randrange(dd); x0 = anchor(*lims[k], method, "Tanh-Sinh")
+                im, ip = pick_inner(rng, facs[k], x0, *lims[k], outer_method=method, cheap=True)
+                if method == "Gauss-Legendre_2" and rng.random() < 0.7: im, ip = "Gauss-Legendre_2", rng.choice([20, 24, 31, 40] if dd == 2 else [20, 24])
+                if dd == 3 and im == "Gauss-Legendre_2" and method not in ("Gauss-Legendre_2", "Adaptive-Simpson"): im, ip = "Gauss-Kronrod", rng.choice([0, 8])
+                if im != "Tanh-Sinh" and method != "Tanh-Sinh" and rng.random() < 0.4:
+                    lo_, hi_ = min(lims[k]), max(lims[k])
+                    x1 = rng.choice([lo_, hi_] + ([0.5 * (lo_ + hi_)] if method != "Trapezoidal" else []))
+                    if im != "Adaptive-Simpson" or facs[k].dl1(min(x1, lo_), max(x1, hi_), want_sign=True)[1]: x0 = x1
+                p = P(method, rng.random() < 0.5)
+                if method == "Gauss-Legendre_2" and dd == 3: p = rng.choice([20, 24])
+                re = (k, x0, im, ip)
+                flat = " ".join(hx(x) for lm in lims for x in lm)
+                cs.append(Case(f"nested{dd}d {method} {p} {flat} {product_text(facs, 'xyz'[:dd], re)} # nd@ {re_ann(re)} " + " ".join(f.ann() for f in facs),
+                               (f"nested{dd}d", "reentrant", method, "inner-" + im)))
     # spherical: the radial profile written through an integral up to the norm of the vector
     for method in METHODS:
         if method == "Trapezoidal" or (not big and (method == "Tanh-Sinh" or (method in ("Gauss-Legendre", "Gauss-Kronrod") and method == pick3))): continue
-        for _ in range(3 if big and method != "Tanh-Sinh" else 1):
-            r1 = rng.uniform(0.1, 1.0); r2 = r1 + rng.uniform(0.5, 1.5)
-            if rng.random() < 0.4: r1, r2 = r2, r1
-            c1 = rng.uniform(-1.0, 0.5); c2 = rng.uniform(c1 + 0.2, 1.0); f1 = rng.uniform(0.0, 4.0); f2 = rng.uniform(f1 + 0.3, 6.28)
-            if rng.random() < 0.5: c1, c2 = c2, c1
-            if rng.random() < 0.5: f1, f2 = f2, f1
-            g = rng.choice([Fac("expdec", rng.uniform(0.3, 1.5)), Fac("rational", rng.uniform(0.1, 2.0)), Fac("gauss", rng.uniform(0.5, 3.0), 0.0)])
-            x0 = max(anchor(r1, r2, method, "Tanh-Sinh", exact_var=False), 0.0)
-            im, ip = pick_inner(rng, g, x0, r1, r2, outer_method=method, cheap=True)
-            if method == "Gauss-Legendre_2": im, ip = "Gauss-Legendre_2", rng.choice([22, 40] if big else [22])
-            elif im == "Gauss-Legendre_2" and method != "Adaptive-Simpson": im, ip = "Gauss-Kronrod", rng.choice([0, 8])
-            p = P(method, rng.random() < 0.5)
-            if method == "Gauss-Legendre_2" and (p > 31 or not big): p = rng.choice([20, 24])
-            re = (x0, im, ip)
-            cs.append(Case(f"spherical {method} {p} {hx(r1)} {hx(r2)} {hx(c1)} {hx(c2)} {hx(f1)} {hx(f2)} {radial_text(g, re)} # sphr@ 0 {im} {ip} {hx(x0)} {g.ann()}",
-                           ("spherical", "reentrant", method, "inner-" + im)))
+        r1 = rng.uniform(0.1, 1.0); r2 = r1 + rng.uniform(0.5, 1.5)
+        if rng.random() < 0.4: r1, r2 = r2, r1
+        c1 = rng.uniform(-1.0, 0.5); c2 = rng.uniform(c1 + 0.2, 1.0); f1 = rng.uniform(0.0, 4.0); f2 = rng.uniform(f1 + 0.3, 6.28)
+        if rng.random() < 0.5: c1, c2 = c2, c1
+        if rng.random() < 0.5: f1, f2 = f2, f1
+        g = rng.choice([Fac("expdec", rng.uniform(0.3, 1.5)), Fac("rational", rng.uniform(0.1, 2.0)), Fac("gauss", rng.uniform(0.5, 3.0), 0.0)])
+        x0 = max(anchor(r1, r2, method, "Tanh-Sinh", exact_var=False), 0.0)
+        im, ip = pick_inner(rng, g, x0, r1, r2, outer_method=method, cheap=True)
+        if method == "Gauss-Legendre_2": im, ip = "Gauss-Legendre_2", 22
+        elif im == "Gauss-Legendre_2" and method != "Adaptive-Simpson": im, ip = "Gauss-Kronrod", rng.choice([0, 8])
+        p = P(method, rng.random() < 0.5)
+        if method == "Gauss-Legendre_2": p = rng.choice([20, 24])
+        re = (x0, im, ip)
+        cs.append(Case(f"spherical {method} {p} {hx(r1)} {hx(r2)} {hx(c1)} {hx(c2)} {hx(f1)} {hx(f2)} {radial_text(g, re)} # sphr@ 0 {im} {ip} {hx(x0)} {g.ann()}",
+                       ("spherical", "reentrant", method, "inner-" + im)))
     return cs
 
 
@@ -521,7 +519,7 @@ def gen_reentrant(rng, big, P):
 #      geometric ladder of relative distances
 def gen_ties(rng, big, P):
     cs = []
-    ladder = [0.0, rng.choice(["ulp+", "ulp-"]), rng.choice([1e-15, 1e-13, 1e-11]), rng.choice([1e-9, 1e-7, 1e-6])] if big else [0.0, 0.0, 0.0, rng.choice(["ulp+", "ulp-"]), rng.choice([1e-15, 1e-12, 1e-9, 1e-6])]
+    ladder = [0.0, rng.choice(["ulp+", "ulp-"]), rng.choice([1e-15, 1e-13, 1e-11, 1e-9, 1e-7, 1e-6])] if big else [0.0, 0.0, 0.0, rng.choice(["ulp+", "ulp-"]), rng.choice([1e-15, 1e-12, 1e-9, 1e-6])]
 
     def near(v, step):
         if step == 0.0: return v
@@ -537,7 +535,7 @@ def gen_ties(rng, big, P):
             for step in (ladder if big else [0.0] if i < j else [rng.choice(ladder[3:])]):
                 count += 1
                 method = METHODS[count % len(METHODS)]
-                if dd == 3 and method in ("Tanh-Sinh", "Trapezoidal") and not big: method = rng.choice(["Gauss-Legendre", "Gauss-Kronrod", "Gauss-Legendre_2"])
+                if dd == 3 and method in ("Tanh-Sinh", "Trapezoidal") and (not big or (method == "Tanh-Sinh" and step != 0.0)): method = rng.choice(["Gauss-Legendre", "Gauss-Kronrod", "Gauss-Legendre_2"])
                 lims = [list(limits(rng, k, rng.random() < 0.6)) for k in range(dd)]
                 target = near(lims[i // 2][i % 2], step)
                 shift = target - lims[j // 2][j % 2]
@@ -559,7 +557,7 @@ def gen_ties(rng, big, P):
             for step in (ladder if big else [0.0] if i < j else [rng.choice(ladder[3:])]):
                 count += 1
                 method = METHODS[count % len(METHODS)]
-                if (method in ("Tanh-Sinh", "Trapezoidal") and not big) or (method == "Trapezoidal" and step != 0.0): method = rng.choice(["Gauss-Legendre", "Gauss-Kronrod", "Gauss-Legendre_2", "Adaptive-Simpson"])
+                if (method in ("Tanh-Sinh", "Trapezoidal") and not big) or (method in ("Tanh-Sinh", "Trapezoidal") and step != 0.0): method = rng.choice(["Gauss-Legendre", "Gauss-Kronrod", "Gauss-Legendre_2", "Adaptive-Simpson"])
                 ai, aj = i // 2, j // 2
                 lo = max(rng_of[ai][0], rng_of[aj][0], 0.05); hi = min(rng_of[ai][1], rng_of[aj][1]) - 1e-3
                 v = rng.choice([rng.uniform(lo, hi), 0.5, 1.0 if hi > 0.99 else 0.25, 0.0 if 0 not in (ai, aj) else 0.75])
@@ -632,64 +630,62 @@ def gen_sharp(rng, big):
         return Fac("gauss", K / (h * h), 0.5 * (lo + hi) + rng.uniform(-0.3, 0.3) * h)
 
     def smooth(a, b): return rand_fac(rng, a, b)
-    reps = 3 if big else 1
-    for _ in range(reps):
-        # Gauss-Legendre_2 with enough points for the peak (accuracy claim applies), every entry point, the peak on any axis
-        for n in (64, 96, 48) if not big else (48, 64, 96, 128):
-            K = rng.uniform(0.8, 1.0) * gl_kmax(n)
-            for op in ("named1d", "nested2d", "nested3d", "spherical"):
-                if dims(op) == 3 and n > (48 if not big else 64): continue            # n^3 evaluations
-                if op == "spherical":
-                    r1 = rng.uniform(0.3, 0.8); r2 = r1 + rng.uniform(0.6, 1.2)
-                    g = sharp_fac(r1, r2, K)
-                    if rng.random() < 0.5: r1, r2 = r2, r1
-                    if rng.random() < 0.5: c1, c2, f1, f2 = -1.0, 1.0, 0.0, 2 * math.pi
-                    else:
-                        c1 = rng.uniform(-1.0, 0.5); c2 = rng.uniform(c1 + 0.2, 1.0); f1 = rng.uniform(0.0, 4.0); f2 = rng.uniform(f1 + 0.3, 6.28)
-                        if rng.random() < 0.5: c1, c2 = c2, c1
-                        if rng.random() < 0.5: f1, f2 = f2, f1
-                    cs.append(Case(f"spherical Gauss-Legendre_2 {n} {hx(r1)} {hx(r2)} {hx(c1)} {hx(c2)} {hx(f1)} {hx(f2)} {radial_text(g)} # sphr {g.ann()}",
-                                   ("spherical", "Gauss-Legendre_2", "sharp", "p")))
-                    continue
-                dd = dims(op)
-                lims = [limits(rng, k, rng.random() < 0.6) for k in range(dd)]
-                ks = rng.randrange(dd)
-                facs = [sharp_fac(*lims[k], K) if k == ks else smooth(*lims[k]) for k in range(dd)]
-                flat = " ".join(hx(x) for lm in lims for x in lm)
-                cs.append(Case(f"{op} Gauss-Legendre_2 {n} {flat} {product_text(facs, 'xyz'[:dd])} # {'1d' if dd == 1 else 'nd'} " + " ".join(f.ann() for f in facs),
-                               (op, "Gauss-Legendre_2", "sharp", "p")))
-        # Gauss-Kronrod with small and large recursion depths on peaks that need several bisections: compared with the direct call
-        for p in (1, 2, 3, 8, 15):
-            K = math.exp(rng.uniform(math.log(150.0), math.log(3000.0)))
-            for op in ("named1d", "nested2d", "spherical") + (("nested3d",) if big else ()):
-                if dims(op) == 3:            # three nested adaptive levels: shallow depths and moderate peaks only
-                    if p in (8, 15) or (p == 3 and not big): continue
-                    K = min(K, 600.0)
-                if op == "spherical":
-                    r1 = rng.uniform(0.3, 0.8); r2 = r1 + rng.uniform(0.6, 1.2)
-                    g = sharp_fac(r1, r2, K)
-                    if rng.random() < 0.5: r1, r2 = r2, r1
+    # Gauss-Legendre_2 with enough points for the peak (accuracy claim applies), every entry point, the peak on any axis
+    for n in (64, 96, 48) if not big else (48, 64, 96, 128):
+        K = rng.uniform(0.8, 1.0) * gl_kmax(n)
+        for op in ("named1d", "nested2d", "nested3d", "spherical"):
+            if dims(op) == 3 and n > (48 if not big else 64): continue            # n^3 evaluations
+            if op == "spherical":
+                r1 = rng.uniform(0.3, 0.8); r2 = r1 + rng.uniform(0.6, 1.2)
+                g = sharp_fac(r1, r2, K)
+                if rng.random() < 0.5: r1, r2 = r2, r1
+                if rng.random() < 0.5: c1, c2, f1, f2 = -1.0, 1.0, 0.0, 2 * math.pi
+                else:
                     c1 = rng.uniform(-1.0, 0.5); c2 = rng.uniform(c1 + 0.2, 1.0); f1 = rng.uniform(0.0, 4.0); f2 = rng.uniform(f1 + 0.3, 6.28)
-                    cs.append(Case(f"spherical Gauss-Kronrod {p} {hx(r1)} {hx(r2)} {hx(c1)} {hx(c2)} {hx(f1)} {hx(f2)} {radial_text(g)} # sphcorr {g.ann()}",
-                                   ("spherical", "Gauss-Kronrod", "sharp", "depth")))
-                    continue
-                dd = dims(op)
-                lims = [limits(rng, k, rng.random() < 0.6) for k in range(dd)]
-                ks = rng.randrange(dd)
-                facs = [sharp_fac(*lims[k], K) if k == ks else smooth(*lims[k]) for k in range(dd)]
-                flat = " ".join(hx(x) for lm in lims for x in lm)
-                cs.append(Case(f"{op} Gauss-Kronrod {p} {flat} {product_text(facs, 'xyz'[:dd])} # {'1dcorr' if dd == 1 else 'ndcorr'} " + " ".join(f.ann() for f in facs),
-                               (op, "Gauss-Kronrod", "sharp", "depth")))
-        # small explicit Gauss-Legendre_2 orders through the spherical overload (model and direct call)
-        for n in (1, 2, 3, 5, 8):
-            r1 = rng.uniform(0.0, 1.0); r2 = r1 + rng.uniform(0.5, 1.5)
-            if rng.random() < 0.5: r1, r2 = r2, r1
-            c1 = rng.uniform(-1.0, 0.5); c2 = rng.uniform(c1 + 0.2, 1.0); f1 = rng.uniform(0.0, 4.0); f2 = rng.uniform(f1 + 0.3, 6.28)
-            if rng.random() < 0.5: c1, c2 = c2, c1
-            if rng.random() < 0.5: f1, f2 = f2, f1
-            g = rng.choice([Fac("expdec", rng.uniform(0.3, 1.5)), Fac("rational", rng.uniform(0.1, 2.0)), Fac("gauss", rng.uniform(0.5, 3.0), 0.0)])
-            cs.append(Case(f"spherical Gauss-Legendre_2 {n} {hx(r1)} {hx(r2)} {hx(c1)} {hx(c2)} {hx(f1)} {hx(f2)} {radial_text(g)} # sphcorr {g.ann()}",
-                           ("spherical", "Gauss-Legendre_2", "small-n")))
+                    if rng.random() < 0.5: c1, c2 = c2, c1
+                    if rng.random() < 0.5: f1, f2 = f2, f1
+                cs.append(Case(f"spherical Gauss-Legendre_2 {n} {hx(r1)} {hx(r2)} {hx(c1)} {hx(c2)} {hx(f1)} {hx(f2)} {radial_text(g)} # sphr {g.ann()}",
+                               ("spherical", "Gauss-Legendre_2", "sharp", "p")))
+                continue
+            dd = dims(op)
+            lims = [limits(rng, k, rng.random() < 0.6) for k in range(dd)]
+            ks = rng.randrange(dd)
+            facs = [sharp_fac(*lims[k], K) if k == ks else smooth(*lims[k]) for k in range(dd)]
+            flat = " ".join(hx(x) for lm in lims for x in lm)
+            cs.append(Case(f"{op} Gauss-Legendre_2 {n} {flat} {product_text(facs, 'xyz'[:dd])} # {'1d' if dd == 1 else 'nd'} " + " ".join(f.ann() for f in facs),
+                           (op, "Gauss-Legendre_2", "sharp", "p")))
+    # Gauss-Kronrod with small and large recursion depths on peaks that need several bisections: compared with the direct call
+    for p in (1, 2, 3, 8, 15):
+        K = math.exp(rng.uniform(math.log(150.0), math.log(3000.0)))
+        for op in ("named1d", "nested2d", "spherical") + (("nested3d",) if big else ()):
+            if dims(op) == 3:            # three nested adaptive levels: shallow depths and moderate peaks only
+                if p in (8, 15) or (p == 3 and not big): continue
+                K = min(K, 600.0)
+            if op == "spherical":
+                r1 = rng.uniform(0.3, 0.8); r2 = r1 + rng.uniform(0.6, 1.2)
+                g = sharp_fac(r1, r2, K)
+                if rng.random() < 0.5: r1, r2 = r2, r1
+                c1 = rng.uniform(-1.0, 0.5); c2 = rng.uniform(c1 + 0.2, 1.0); f1 = rng.uniform(0.0, 4.0); f2 = rng.uniform(f1 + 0.3, 6.28)
+                cs.append(Case(f"spherical Gauss-Kronrod {p} {hx(r1)} {hx(r2)} {hx(c1)} {hx(c2)} {hx(f1)} {hx(f2)} {radial_text(g)} # sphcorr {g.ann()}",
+                               ("spherical", "Gauss-Kronrod", "sharp", "depth")))
+                continue
+            dd = dims(op)
+            lims = [limits(rng, k, rng.random() < 0.6) for k in range(dd)]
+            ks = rng.randrange(dd)
+            facs = [sharp_fac(*lims[k], K) if k == ks else smooth(*lims[k]) for k in range(dd)]
+            flat = " ".join(hx(x) for lm in lims for x in lm)
+            cs.append(Case(f"{op} Gauss-Kronrod {p} {flat} {product_text(facs, 'xyz'[:dd])} # {'1dcorr' if dd == 1 else 'ndcorr'} " + " ".join(f.ann() for f in facs),
+                           (op, "Gauss-Kronrod", "sharp", "depth")))
+    # small explicit Gauss-Legendre_2 orders through the spherical overload (model and direct call)
+    for n in (1, 2, 3, 5, 8):
+        r1 = rng.uniform(0.0, 1.0); r2 = r1 + rng.uniform(0.5, 1.5)
+        if rng.random() < 0.5: r1, r2 = r2, r1
+        c1 = rng.uniform(-1.0, 0.5); c2 = rng.uniform(c1 + 0.2, 1.0); f1 = rng.uniform(0.0, 4.0); f2 = rng.uniform(f1 + 0.3, 6.28)
+        if rng.random() < 0.5: c1, c2 = c2, c1
+        if rng.random() < 0.5: f1, f2 = f2, f1
+        g = rng.choice([Fac("expdec", rng.uniform(0.3, 1.5)), Fac("rational", rng.uniform(0.1, 2.0)), Fac("gauss", rng.uniform(0.5, 3.0), 0.0)])
+        cs.append(Case(f"spherical Gauss-Legendre_2 {n} {hx(r1)} {hx(r2)} {hx(c1)} {hx(c2)} {hx(f1)} {hx(f2)} {radial_text(g)} # sphcorr {g.ann()}",
+                       ("spherical", "Gauss-Legendre_2", "small-n")))
     return cs
 
 
